@@ -196,7 +196,28 @@ def _func_case(draw, tier):
                 seed=draw(seeds), start=start, chunks=chunks)
 
 
+@st.composite
+def _bigreq(draw, tier):
+    """one (or two) LONG requests (n up to 1e5, the upper end of the stated
+    domain) with many rays / a multi-dimensional shape, where an
+    implementation is tempted to work block-wise; checked by the same
+    history interpreter (part name stays 'hist' for the checker)"""
+    ts = draw(st.one_of(_ts_generic(), st.sampled_from(_POW2_TS)))
+    fdts = draw(_fdts())
+    L = draw(st.sampled_from([4, 8, 12, 16]))
+    shape = draw(st.sampled_from([None, 2, [2, 2], [3, 2], [3, 2, 2]]))
+    ops = []
+    if draw(st.booleans()):
+        ops.append(["skip", draw(_logint(1, 10 ** 6))])
+    ops.append(["gen", draw(_logint(5000, 10 ** 5))])
+    if draw(st.booleans()):
+        ops.append(["gen", draw(_logint(1000, 40000))])
+    return dict(part="bigreq", Fd=fdts / ts, Ts=ts, L=L, shape=shape,
+                seed=draw(seeds), ops=ops, twin=draw(st.booleans()))
+
+
 PARTS = [
+    Part("bigreq", _bigreq, quick=24, thorough=800, quick_shards=8),
     Part("hist", _history, quick=3200, thorough=60000, quick_shards=8),
     Part("func", _func_case, quick=600, thorough=10000, quick_shards=4),
 ]
